@@ -157,6 +157,17 @@ func ParseExpression(str string, collation sql.CollationID) []int32 {
 // This is true even when the match expressions are pooled. The reason is unknown, but as we only need the collection
 // indexes anyway, we discard the match expressions and return only their indexes.
 func Match(matchExprCollection []MatchExpression, str string, collation sql.CollationID) []uint32 {
+	if len(str) == 0 {
+		// The empty string has no rune to consume (decoding it would yield a RuneError that '_' accepts), so only
+		// expressions that are already at their end, i.e. empty or a lone '%', match it.
+		validMatches := indexPool.Get().([]uint32)[:0]
+		for _, testExpr := range matchExprCollection {
+			if testExpr.IsAtEnd() {
+				validMatches = append(validMatches, testExpr.CollectionIndex)
+			}
+		}
+		return validMatches
+	}
 	sortFunc := collation.Sorter()
 	// Grab the first rune and also remove it from the string
 	r, rSize := utf8.DecodeRuneInString(str)
